@@ -2,12 +2,13 @@
    ExtrOcamlBasic only; Z/positive/N/nat stay extracted inductives. No Extract Constant. *)
 Require Extraction.
 Require Import ExtrOcamlBasic.
-From NV Require Import Base.Result Base.Bytes Base.PyPrims Model.Crc Model.Frames.
+From NV Require Import Base.Result Base.Bytes Base.PyPrims Model.Crc Model.Frames Model.CrcPath.
 Cd "../extract/ml".
 Extraction "c14.ml"
   Model.Crc.calculate_crc Model.Crc.add_crc_a Model.Crc.add_crc_b Model.Crc.check_crc_a Model.Crc.check_crc_b
   Model.Crc.iso_crc_a Model.Crc.iso_crc_b
   Model.Frames.pn53x_build Model.Frames.pn53x_parse Model.Frames.host_frame_ok Model.Frames.pn53x_response
   Model.Frames.acr122_build Model.Frames.acr122_parse Model.Frames.acr122_cmd_ok Model.Frames.acr122_rsp_ok
-  Model.Frames.rcs380_build Model.Frames.rcs380_frame_ok.
+  Model.Frames.rcs380_build Model.Frames.rcs380_frame_ok
+  Model.CrcPath.type_a_rsp.
 Cd "../../coq".
